@@ -155,6 +155,7 @@ RULES = [
     (r'lib\.rs', r'impl G[12]\b.*::from_compressed', 'C14'),
     (r'lib\.rs', r'impl G[12]::(?!from_|to_).*|impl Group for G[12].*|impl (Add|Sub|Neg|Mul) .*G[12].*', 'C04 C05 C15 C16'),
     (r'lib\.rs', r'impl Gt\b.*|impl Mul < Gt >.*', 'C11'),
+    (r'lib\.rs', r'impl Group for G[12]::normalize', 'C01 C02 C03'),
     (r'lib\.rs', r'impl AffineG[12]\b.*|impl From < AffineG[12] >.*', 'C09 C15'),
     (r'lib\.rs', r'impl From < G2 > for G2Prepared.*|impl G2Prepared.*|::pairing$|::fast_pairing$', 'C01 C02 C03 C16'),
 ]
